@@ -33,6 +33,7 @@ typedef struct fiber {
 	uint32_t     prio;          /* PCT */
 	const char  *last_site;
 	int          yieldy;        /* last site was sched_yield / nanosleep / spin */
+	int          spinning;      /* parked at a sched_yield: burns time, makes no progress by itself */
 	void        *asan_fake;
 	int          revoked;
 	int          qwrite_fail;   /* failed queue writes issued by this fiber */
@@ -124,6 +125,7 @@ typedef struct sim_state {
 	char      vclass[48];
 	char      detail[400];
 	char      vsite[48];
+	char      ctx_tag[48];
 	uint64_t  vtime;
 	uint64_t  hash;
 	int       interesting;
